@@ -165,6 +165,10 @@ func wrapTables(q string) string {
 	q = strings.ReplaceAll(q, " FROM u", " FROM root.u")
 	q = strings.ReplaceAll(q, " JOIN u", " JOIN root.u")
 	q = strings.ReplaceAll(q, "`<-meta`", "`<-root.meta`")
+	q = strings.ReplaceAll(q, "`distinct=>dups`", "`distinct=>root.dups`")
+	q = strings.ReplaceAll(q, "`distinct=>objs`", "`distinct=>root.objs`")
+	q = strings.ReplaceAll(q, "`distinct=>t`", "`distinct=>root.t`")
+	q = strings.ReplaceAll(q, "`t[", "`root.t[")
 	return q
 }
 
@@ -197,6 +201,24 @@ var c11PlainQueries = []string{
 	"SELECT id, ASYNC.fx(90, a) AS y, SPIN.fx(91, a), SPINASYNC.fx(92, id) FROM t",
 	"SELECT id FROM t WHERE a BETWEEN 0 AND 100",
 	"SELECT id, CASE WHEN a >= 20 THEN 'big' ELSE s END AS k FROM t",
+	// selector language: top-level functions, open slices, each, reshape, continue-with
+	"SELECT * FROM `distinct=>dups`",
+	"SELECT k FROM `distinct=>objs`",
+	"SELECT id, `distinct=>tags` AS dt, `tags[(1:end)]` AS sl FROM t",
+	"SELECT id, `tags[(begin:2)]` AS sl2, `grid[each:0]` AS g0, `n{v|string, w}` AS rs FROM t",
+	"SELECT id, `mix=>n[each].v` AS mx, `n[(0:end)].w` AS ws, `grid[(0:end)]::[0]` AS cont FROM t",
+	"SELECT id FROM `t[(1:end)]`",
+	"SELECT id FROM `distinct=>t`",
+	"SELECT id, tags FROM t ORDER BY id DESC",
+	"SELECT id, a FROM t ORDER BY s, a DESC LIMIT 3 OFFSET 1",
+	// WITH in sibling / nested statements
+	"WITH c AS (SELECT id, a FROM t) SELECT id FROM c UNION ALL SELECT id FROM u",
+	"WITH c AS (SELECT id FROM t) SELECT id FROM c UNION SELECT id FROM c",
+	"SELECT id FROM t UNION ALL WITH c AS (SELECT id FROM u) SELECT id FROM c",
+	"SELECT * FROM (WITH c AS (SELECT id, a FROM t) SELECT id FROM c) d",
+	"SELECT * FROM (WITH c1 AS (SELECT id, a FROM t) SELECT id, a FROM c1) x JOIN (WITH c2 AS (SELECT id FROM u) SELECT id FROM c2) y ON x.id = y.id",
+	"SELECT id, (SELECT * FROM (WITH c AS (SELECT v FROM n) SELECT v FROM c) d) AS sub FROM t",
+	"WITH c AS (WITH d AS (SELECT id FROM t) SELECT id FROM d) SELECT id FROM c",
 }
 
 func genC11(t *rapid.T) *Bundle {
@@ -241,12 +263,15 @@ func genC11(t *rapid.T) *Bundle {
 func corpusC11() []*Bundle {
 	doc := map[string]any{
 		"t": []any{
-			map[string]any{"id": 1.0, "a": 10.0, "s": "x", "f": true, "n": []any{map[string]any{"v": 1.0, "w": "p"}, map[string]any{"v": 2.0, "w": "q"}}},
-			map[string]any{"id": 2.0, "a": 20.0, "s": "xy", "f": false, "n": []any{map[string]any{"v": 3.0, "w": "p"}}},
-			map[string]any{"id": 3.0, "a": 30.0, "s": "x", "f": true, "n": []any{}},
+			map[string]any{"id": 1.0, "a": 10.0, "s": "x", "f": true, "n": []any{map[string]any{"v": 1.0, "w": "p"}, map[string]any{"v": 2.0, "w": "q"}}, "tags": []any{"x", "x", "y", "z"}, "grid": []any{[]any{1.0, 2.0}, []any{3.0, 4.0}}},
+			map[string]any{"id": 2.0, "a": 20.0, "s": "xy", "f": false, "n": []any{map[string]any{"v": 3.0, "w": "p"}}, "tags": []any{"y", "y"}, "grid": []any{[]any{5.0, 6.0}}},
+			map[string]any{"id": 3.0, "a": 30.0, "s": "x", "f": true, "n": []any{}, "tags": []any{}, "grid": []any{}},
+			map[string]any{"id": 1.0, "a": 10.0, "s": "x", "f": true, "n": []any{map[string]any{"v": 1.0, "w": "p"}, map[string]any{"v": 2.0, "w": "q"}}, "tags": []any{"x", "x", "y", "z"}, "grid": []any{[]any{1.0, 2.0}, []any{3.0, 4.0}}},
 		},
 		"u":    []any{map[string]any{"id": 1.0, "b": "k", "g": true}, map[string]any{"id": 3.0, "b": "m", "g": false}},
 		"meta": map[string]any{"ip": "10.0.0.1"},
+		"dups": []any{1.0, 1.0, 2.0, 3.0, 2.0},
+		"objs": []any{map[string]any{"k": 1.0}, map[string]any{"k": 1.0}, map[string]any{"k": 2.0}},
 	}
 	var out []*Bundle
 	for _, wrapped := range []bool{false, true} {
